@@ -1267,7 +1267,10 @@ func (s *ImmuStore) syncBinaryLinking() error {
 		}
 
 		alh := tx.header.Alh()
-		s.aht.Append(alh[:])
+		_, _, err = s.aht.Append(alh[:])
+		if err != nil {
+			return err
+		}
 
 		if tx.header.ID%1000 == 0 {
 			s.logger.Infof("binary-linking at '%s' in progress: processing tx: %d", s.path, tx.header.ID)
